@@ -69,6 +69,7 @@ type thread struct {
 	blocked func() bool // non-nil: waiting until blocked() == false
 	points  int
 	hash    uint64 // everything this thread can have observed so far
+	mutNext bool   // the step this thread is about to execute can change the file tree
 }
 
 type PointRec struct {
@@ -91,7 +92,13 @@ type Exec struct {
 	Pruned   bool // stopped because the state key was already visited
 	Diverged bool // prefix could not be replayed
 	active   bool
+	aborting bool   // the execution is being abandoned: threads unwind, deferred unlocks must run to completion
+	fsDirty  bool   // a mutating step ran since the file-tree hash was taken
+	fsHash   uint64 // cached FSKey()
 }
+
+// OnRunStart is set by vsync: resets the modelled state of every lock used so far.
+var OnRunStart func()
 
 var (
 	cur *Exec
@@ -136,12 +143,17 @@ func Point(kind, res string, mut bool) {
 		logMu.Unlock()
 		return
 	}
+	if e.aborting {
+		// called from a deferred function (e.g. Unlock) while the thread unwinds: act, do not yield
+		return
+	}
 	t := e.cur
 	t.points++
 	e.yield <- struct{}{}
 	if ok := <-t.resume; !ok {
 		panic(abortSentinel{})
 	}
+	t.mutNext = mut || kind == "open" || kind == "mkdirall" // their "creates something" flag is computed before the thread is parked and can be stale
 	// the step now executes: fold what the thread can see of shared memory
 	foldMem(t, kind, res)
 	e.Trace = append(e.Trace, fmt.Sprintf("t%d:%s:%s", t.id, kind, base(res)))
@@ -154,6 +166,9 @@ func Block(cond func() bool) {
 		return
 	}
 	for cond() {
+		if e.aborting {
+			return
+		}
 		t := e.cur
 		t.blocked = cond
 		e.yield <- struct{}{}
@@ -165,8 +180,14 @@ func Block(cond func() bool) {
 	}
 }
 
+// foldMem folds the step into the thread's observation hash. The shared
+// in-memory state is folded in where the thread can read it: at thread start
+// and whenever it acquires a lock (assumption A2: shared memory is only read
+// under a lock; unsynchronised accesses are the business of the -race pass).
 func foldMem(t *thread, kind, res string) {
-	if MemKey != nil {
+	readsMem := kind == "start" || kind == "unblock" || kind == "lock" || kind == "rlock" || kind == "wlock" ||
+		kind == "trylock" || kind == "trywlock" || kind == "tryrlock"
+	if MemKey != nil && readsMem {
 		t.hash = mix(t.hash, fmt.Sprintf("%s|%s|%x", kind, res, MemKey()))
 	} else {
 		t.hash = mix(t.hash, kind+"|"+res)
@@ -177,7 +198,10 @@ func foldMem(t *thread, kind, res string) {
 // (default choice 0 afterwards). seen != nil enables state-key pruning after
 // the prefix has been consumed.
 func Run(prefix []int, bodies []func(), seen map[[2]uint64]struct{}) *Exec {
-	e := &Exec{yield: make(chan struct{}), active: true}
+	if OnRunStart != nil {
+		OnRunStart()
+	}
+	e := &Exec{yield: make(chan struct{}), active: true, fsDirty: true}
 	cur = e
 	for i, b := range bodies {
 		t := &thread{id: i, resume: make(chan bool), hash: uint64(i) + 1}
@@ -201,6 +225,7 @@ func Run(prefix []int, bodies []func(), seen map[[2]uint64]struct{}) *Exec {
 		}()
 	}
 	abortAll := func() {
+		e.aborting = true
 		for _, t := range e.threads {
 			if !t.done {
 				e.cur = t
@@ -267,6 +292,11 @@ func Run(prefix []int, bodies []func(), seen map[[2]uint64]struct{}) *Exec {
 		e.cur = t
 		t.resume <- true
 		<-e.yield
+		if t.mutNext {
+			// the step that just ran could change the file tree
+			e.fsDirty = true
+			t.mutNext = false
+		}
 	}
 	e.active = false
 	cur = nil
@@ -276,7 +306,10 @@ func Run(prefix []int, bodies []func(), seen map[[2]uint64]struct{}) *Exec {
 func (e *Exec) stateKey() [2]uint64 {
 	var g uint64 = 1469598103934665603
 	if FSKey != nil {
-		g = mix(g, fmt.Sprintf("fs%x", FSKey()))
+		if e.fsDirty {
+			e.fsHash, e.fsDirty = FSKey(), false
+		}
+		g = mix(g, fmt.Sprintf("fs%x", e.fsHash))
 	}
 	if MemKey != nil {
 		g = mix(g, fmt.Sprintf("mem%x", MemKey()))
@@ -315,6 +348,12 @@ type Stats struct {
 // false to stop the exploration. subtree, if non-nil, restricts the search to
 // schedules starting with that prefix. maxExec caps the executions (0 = none).
 func Explore(bound int, subtree []int, maxExec int, mk func() []func(), check func(*Exec) bool) Stats {
+	return ExploreUntil(bound, subtree, maxExec, nil, mk, check)
+}
+
+// ExploreUntil is Explore with a stop predicate polled every 256 executions
+// (an internal deadline ends the exploration with Stats.Capped).
+func ExploreUntil(bound int, subtree []int, maxExec int, stop func() bool, mk func() []func(), check func(*Exec) bool) Stats {
 	var st Stats
 	var seen map[[2]uint64]struct{}
 	if bound < 0 {
@@ -323,6 +362,10 @@ func Explore(bound int, subtree []int, maxExec int, mk func() []func(), check fu
 	var rec func(prefix []int) bool
 	rec = func(prefix []int) bool {
 		if maxExec > 0 && st.Executions >= maxExec {
+			st.Capped = true
+			return false
+		}
+		if stop != nil && st.Executions%256 == 255 && stop() {
 			st.Capped = true
 			return false
 		}
